@@ -338,7 +338,7 @@ def main():
     add(family='amo_minmax', nreq=1, lat=1, nports=2, sink_delay=0, stalls=False, dws=[16, 64])
     for fam in MS.FAMILIES:
       for lat in (0, 1, 3):
-        add(family=fam, nreq=2, lat=lat, nports=1, sink_delay=0, stalls=True)
+        add(family=fam, nreq=2, lat=lat, nports=1, sink_delay=0, stalls=True, stall_budget=(2 if len(MS.FAMILIES[fam]) <= 2 else 1))      # paths grow with types^2 x stall patterns
         add(family=fam, nreq=2, lat=lat, nports=1, sink_delay=3, stalls=False)
       add(family=fam, nreq=1, lat=1, nports=2, sink_delay=1, stalls=False)
     add(family='rw', nreq=3, lat=1, nports=1, sink_delay=1, stalls=False)
